@@ -66,6 +66,23 @@ type ReplayFile struct {
 
 // ReplayInProcess runs the recorded case once in this process and returns the violations it raised.
 func ReplayInProcess(rf *ReplayFile) (*Ctx, error) {
+	if rf.Kind == "shard-schedule" {
+		var sc struct {
+			Shard, Of int
+			Tier      string
+			Seed      int64
+		}
+		if err := json.Unmarshal(rf.Case, &sc); err != nil {
+			return nil, err
+		}
+		spec := Props[rf.Property]
+		if spec == nil || sc.Of <= 0 {
+			return nil, fmt.Errorf("bad shard schedule")
+		}
+		c := NewCtx(rf.Property, sc.Tier, sc.Seed, sc.Shard, sc.Of)
+		spec.Run(c)
+		return c, nil
+	}
 	fn := kinds[rf.Property+"/"+rf.Kind]
 	if fn == nil {
 		return nil, fmt.Errorf("no case function for %s/%s", rf.Property, rf.Kind)
@@ -305,6 +322,12 @@ func RunCheck(o *RunOpts, prop string) int {
 			fmt.Fprintf(os.Stderr, "FRAMEWORK ERROR property=%s shard=%d: %v\n", prop, i, r.err)
 			return 2
 		}
+		for _, v := range r.res.Viols {
+			v.Shard = i
+		}
+		for _, v := range r.extra {
+			v.Shard = i
+		}
 		m.Absorb(r.res)
 		m.Absorb(&WorkerResult{Viols: r.extra, Capped: r.capped})
 	}
@@ -321,7 +344,7 @@ func RunCheck(o *RunOpts, prop string) int {
 	sort.Slice(keys, func(i, j int) bool { return m.Viols[keys[i]].Order < m.Viols[keys[j]].Order })
 	exit := 0
 	nviol := 0
-	var unconfirmed []string
+	var unconfirmed, unconfirmedKeys []string
 	var knownHits []string
 	os.MkdirAll(filepath.Join(o.VerifDir, "replays"), 0o755)
 	for _, k := range keys {
@@ -353,6 +376,7 @@ func RunCheck(o *RunOpts, prop string) int {
 			// ran before it in the worker (hidden state carried between calls). It is never printed as a VIOLATION;
 			// it only matters if nothing else confirms (see below).
 			unconfirmed = append(unconfirmed, fmt.Sprintf("%s (%s): %s", v.Key, path, detail))
+			unconfirmedKeys = append(unconfirmedKeys, v.Key)
 			continue
 		}
 		nviol++
@@ -362,6 +386,45 @@ func RunCheck(o *RunOpts, prop string) int {
 
 	for _, u := range unconfirmed {
 		fmt.Printf("UNCONFIRMED-OBSERVATION property=%s %s\n", prop, u)
+	}
+	if nviol == 0 && len(unconfirmed) > 0 {
+		// The failure does not follow from its own case alone: it may depend on what the worker ran before it (state
+		// carried between calls of the library). The deterministic schedule that produced it is the worker shard, so
+		// the shard is re-run three times in fresh processes; a key that comes back every time is a violation whose
+		// replay artefact is the shard schedule itself.
+		for _, k := range unconfirmedKeys {
+			v := m.Viols[k]
+			again := 0
+			for r := 0; r < 3; r++ {
+				sr := runShard(o, prop, v.Shard, n)
+				if sr.err != nil {
+					break
+				}
+				hit := false
+				for _, x := range sr.res.Viols {
+					hit = hit || x.Key == k
+				}
+				if !hit {
+					break
+				}
+				again++
+			}
+			if again < 3 {
+				continue
+			}
+			sc, _ := json.Marshal(map[string]any{"shard": v.Shard, "of": n, "tier": o.Tier, "seed": o.Seed, "first_failing_case_kind": v.Kind, "first_failing_case": v.Case})
+			rf := &ReplayFile{Property: prop, Kind: "shard-schedule", Key: k, What: v.What + " — fails only after the calls the worker shard made before it (state carried between calls); the replay re-runs that shard", Case: sc}
+			path := filepath.Join(o.VerifDir, "replays", sanitize(k)+".schedule.json")
+			b, _ := json.MarshalIndent(rf, "", " ")
+			if err := os.WriteFile(path, b, 0o644); err != nil {
+				fmt.Fprintf(os.Stderr, "FRAMEWORK ERROR: %v\n", err)
+				return 2
+			}
+			nviol++
+			exit = 1
+			fmt.Printf("VIOLATION property=%s replay=%s\n  key=%s cases=%d (reproduced by re-running worker shard %d/%d three times)\n  %s\n", prop, path, k, v.Count, v.Shard, n, v.What)
+			break // one schedule-level report is enough; the others are listed above
+		}
 	}
 	if nviol == 0 && len(unconfirmed) > 0 {
 		fmt.Fprintf(os.Stderr, "FRAMEWORK ERROR property=%s: %d observation(s) did not reproduce from their replay files and nothing else failed; no verdict\n", prop, len(unconfirmed))
